@@ -5,4 +5,5 @@ EXES = [
     {"name": "cancel", "sources": ["harness/cancel.cpp"]},
     {"name": "mutexh", "sources": ["harness/mutexh.cpp"]},
     {"name": "events", "sources": ["harness/events.cpp"]},
+    {"name": "scopes", "sources": ["harness/scopes.cpp"]},
 ]
